@@ -35,82 +35,7 @@ import (
 	"github.com/rs/zerolog"
 )
 
-// ---- result types (mirror of main.go) ----------------------------------------------------------
-
-type Case struct {
-	Site    string `json:"site"`
-	OffS    int64  `json:"ts_offset_s"`
-	DelayNs int64  `json:"replay_delay_ns"`
-	Phi1Ns  int64  `json:"recv_phase_ns"`
-	FirstS  int64  `json:"first_receipt_after_construction_s"`
-	Ticks   bool   `json:"eviction_ticks"`
-}
-
-type Obs struct {
-	Case       Case   `json:"case"`
-	TolS       int64  `json:"tolerance_s"`
-	TTLNs      int64  `json:"nonce_ttl_ns"`
-	Orig       string `json:"original"`
-	Replay     string `json:"replay"`
-	OrigDrift  int64  `json:"original_drift_s"`
-	ReplDrift  int64  `json:"replay_drift_s"`
-	TicksSent  int    `json:"ticks_sent"`
-	TicksTaken int    `json:"ticks_accepted"`
-}
-
-type Class struct {
-	Kind     string `json:"kind"`
-	Site     string `json:"site"`
-	Region   string `json:"region"`
-	Count    int    `json:"count"`
-	Min      Obs    `json:"min"`
-	MaxDelay int64  `json:"max_replay_delay_ns"`
-	MinOff   int64  `json:"min_ts_offset_s"`
-	MaxOff   int64  `json:"max_ts_offset_s"`
-}
-
-type SiteInfo struct {
-	TolNs int64 `json:"tolerance_ns"`
-	TTLNs int64 `json:"nonce_ttl_ns"`
-}
-
-type WorkerOut struct {
-	Sites          map[string]SiteInfo `json:"sites"`
-	Cases          int                 `json:"cases"`
-	Deliveries     int                 `json:"deliveries"`
-	NonTrivial     int                 `json:"nontrivial"`
-	Outcomes       map[string]int      `json:"outcomes"`
-	Classes        []Class             `json:"classes"`
-	Samples        []Obs               `json:"samples"`
-	ClockReads     int64               `json:"clock_reads"`
-	FreshRejected  int                 `json:"fresh_rejected"`
-	Exhaustive     bool                `json:"exhaustive"`
-	Errors         []string            `json:"errors"`
-	GridOffsets    map[string]int      `json:"grid_offsets"`
-	GridDelays     map[string]int      `json:"grid_delays"`
-	AcceptedOrigin map[string]int      `json:"accepted_originals"`
-}
-
-func caseLess(a, b Case) bool {
-	k := func(c Case) [6]int64 {
-		t, neg := int64(0), int64(0)
-		if c.Ticks {
-			t = 1
-		}
-		ab := c.OffS
-		if ab < 0 {
-			ab, neg = -ab, 1
-		}
-		return [6]int64{t, c.FirstS, c.Phi1Ns, c.DelayNs, ab, neg}
-	}
-	x, y := k(a), k(b)
-	for i := range x {
-		if x[i] != y[i] {
-			return x[i] < y[i]
-		}
-	}
-	return false
-}
+// ---- result types: shared.go ---------------------------------------------------------------------
 
 // ---- sites -----------------------------------------------------------------------------------
 
@@ -156,10 +81,26 @@ type coordInst struct {
 
 func (i *coordInst) ttl() time.Duration { return ttlOf(i.c.VerifC26NonceCache()) }
 
+// noDeadlineConn: the handler (and the protocol codec) arm WALL-CLOCK read/write deadlines of 5-30 s on
+// the connection; on an in-memory pipe they are not part of the property, and on a heavily loaded box
+// they fire spuriously (a starved goroutine is enough). The harness side is guarded by handlerWatchdog.
+type noDeadlineConn struct{ net.Conn }
+
+func (noDeadlineConn) SetDeadline(time.Time) error      { return nil }
+func (noDeadlineConn) SetReadDeadline(time.Time) error  { return nil }
+func (noDeadlineConn) SetWriteDeadline(time.Time) error { return nil }
+
+// handlerWatchdog: how long one delivery may take in wall time before the case is abandoned (and
+// retried once on a fresh handler). Only a hung handler can reach it.
+const handlerWatchdog = 5 * time.Minute
+
 func (i *coordInst) deliver(sender, nonce string, ts int64) (bool, string) {
-	cli, srv := net.Pipe()
+	rawCli, rawSrv := net.Pipe()
+	cli, srv := noDeadlineConn{rawCli}, noDeadlineConn{rawSrv}
 	done := make(chan struct{})
 	go func() { i.c.VerifC26HandlePeer(srv); close(done) }()
+	wd := time.AfterFunc(handlerWatchdog, func() { rawCli.Close(); rawSrv.Close() })
+	defer wd.Stop()
 	var msg *protocol.Message
 	if i.kind == "forward-apply" {
 		payload := []byte(`{"type":1,"payload":{}}`)
@@ -173,10 +114,10 @@ func (i *coordInst) deliver(sender, nonce string, ts int64) (bool, string) {
 			HMAC: security.ComputeReplicateSyncHMAC(secret, nonce, sender, clusterName, 7, ts),
 		}}
 	}
-	if err := protocol.SendMessage(cli, msg, 10*time.Second); err != nil {
+	if err := protocol.SendMessage(cli, msg, 0); err != nil {
 		fail("%s: send: %v", i.kind, err)
 	}
-	resp, err := protocol.ReceiveMessage(cli, 10*time.Second)
+	resp, err := protocol.ReceiveMessage(cli, 0)
 	if err != nil {
 		fail("%s: no reply from handler: %v", i.kind, err)
 	}
@@ -236,7 +177,7 @@ func (i *cacheInvInst) deliver(sender, nonce string, ts int64) (bool, string) {
 	req.Header.Set("X-Arc-Timestamp", strconv.FormatInt(ts, 10))
 	req.Header.Set("X-Arc-HMAC", security.ComputeCacheInvalidateHMAC(secret, nonce, sender, clusterName, ts))
 	before := *i.calls
-	resp, err := i.app.Test(req, 10000)
+	resp, err := i.app.Test(req, int(handlerWatchdog/time.Millisecond))
 	if err != nil {
 		fail("cache-invalidate: request: %v", err)
 	}
@@ -342,7 +283,7 @@ func (i *edgeInst) deliver(sender, nonce string, ts int64) (bool, string) {
 	req.Header.Set(h["hub"], hubID)
 	req.Header.Set(h["nonce"], nonce)
 	req.Header.Set(h["ts"], strconv.FormatInt(ts, 10))
-	resp, err := i.app.Test(req, 10000)
+	resp, err := i.app.Test(req, int(handlerWatchdog/time.Millisecond))
 	if err != nil {
 		fail("%s: request: %v", i.kind, err)
 	}
@@ -369,7 +310,7 @@ func edgeSite(rig *edgeRig, kind string) site {
 		guard := siteEdgeSyncReplay()
 		h, err := api.NewEdgeSyncHandler(api.EdgeSyncHandlerConfig{
 			Receiver: rig.recv, Reconciler: rig.rec,
-			SpokeSecrets: api.StaticSpokeSecrets(map[string]string{"spoke-a": secret, "spoke-ticker": secret}),
+			SpokeSecrets: api.StaticSpokeSecrets(map[string]string{"spoke-a": secret, "spoke-ticker": secret, "spoke-ticker2": secret}),
 			Replay:       guard, HubID: hubID, MaxFileBytes: 1 << 20, Logger: zerolog.Nop(),
 		})
 		if err != nil {
@@ -413,9 +354,117 @@ type result struct {
 	obs        Obs
 	deliveries int
 	freshRej   int
+	unrelated  map[string]int // "U=accepted" ... (history cases)
+}
+
+const nonceUnderTest = "nonce-under-test"
+
+// runHistory executes a history case (see Case in shared.go) on one fresh handler + nonce cache.
+func runHistory(s site, c Case) result {
+	t0 := epochS * 1e9
+	security.VerifSetClock(t0)
+	in := s.mk()
+	tolS := int64(s.tol.Seconds())
+	ttl := in.ttl()
+	sender, ticker := senders(s.name)
+	r := result{obs: Obs{Case: c, TolS: tolS, TTLNs: int64(ttl)}, unrelated: map[string]int{}}
+	fmtRes := func(acc bool, why string) string {
+		if acc {
+			return "accepted"
+		}
+		return "rejected:" + why
+	}
+	now := t0
+	var ts, tM int64
+	nU, nV := 0, 0
+	var evs []string
+	for _, tok := range strings.Fields(c.Hist) {
+		if tok[0] == '+' {
+			n, err := strconv.ParseInt(tok[1:], 10, 64)
+			if err != nil || n < 0 {
+				fail("bad history token %q in %q", tok, c.Hist)
+			}
+			now += n * 1e9
+			continue
+		}
+		security.VerifSetClock(now)
+		var res string
+		switch tok {
+		case "M":
+			if r.obs.Orig != "" {
+				fail("history %q delivers M twice", c.Hist)
+			}
+			tM, ts = now, now/1e9+c.OffS
+			res = fmtRes(in.deliver(sender, nonceUnderTest, ts))
+			r.obs.Orig, r.obs.OrigDrift = res, now/1e9-ts
+		case "R":
+			if r.obs.Orig == "" || r.obs.Replay != "" {
+				fail("history %q: R must come once, after M", c.Hist)
+			}
+			res = fmtRes(in.deliver(sender, nonceUnderTest, ts))
+			r.obs.Replay, r.obs.ReplDrift, r.obs.ElapsedNs = res, now/1e9-ts, now-tM
+		case "U", "V":
+			var acc bool
+			var why string
+			if tok == "U" { // same sender, a nonce of its own
+				nU++
+				acc, why = in.deliver(sender, "unrelated-"+strconv.Itoa(nU), now/1e9)
+			} else { // another node id, the nonce under test
+				nV++
+				id := ticker
+				if nV > 1 {
+					id += strconv.Itoa(nV)
+				}
+				acc, why = in.deliver(id, nonceUnderTest, now/1e9)
+			}
+			res = fmtRes(acc, why)
+			r.obs.TicksSent++
+			if acc {
+				r.obs.TicksTaken++
+			} else {
+				r.freshRej++
+			}
+			r.unrelated[tok+"="+res]++
+		default:
+			fail("bad history token %q in %q", tok, c.Hist)
+		}
+		r.deliveries++
+		evs = append(evs, fmt.Sprintf("%s@+%ds=%s", tok, (now-t0)/1e9, res))
+	}
+	if r.obs.Orig == "" || r.obs.Replay == "" {
+		fail("history %q lacks M or R", c.Hist)
+	}
+	r.obs.Events = strings.Join(evs, " ")
+	return r
+}
+
+// runCaseRetry: a case whose handler could not be driven (harnessErr: watchdog, broken pipe, ...) is
+// run once more on a fresh handler + cache before the worker gives up with HARNESS-UNBOUND.
+func runCaseRetry(s site, c Case, retried *int) (r result) {
+	for attempt := 0; ; attempt++ {
+		ok := func() (ok bool) {
+			defer func() {
+				if e := recover(); e != nil {
+					if _, isH := e.(harnessErr); isH && attempt == 0 {
+						*retried++
+						return
+					}
+					panic(e)
+				}
+			}()
+			r = runCase(s, c)
+			return true
+		}()
+		if ok {
+			return r
+		}
+	}
 }
 
 func runCase(s site, c Case) result {
+	if c.Hist != "" {
+		return runHistory(s, c)
+	}
 	t0 := epochS * 1e9
 	security.VerifSetClock(t0)
 	in := s.mk()
@@ -427,7 +476,7 @@ func runCase(s site, c Case) result {
 	ts := s1 + c.OffS
 	t2 := t1 + c.DelayNs
 	s2 := t2 / 1e9
-	r := result{obs: Obs{Case: c, TolS: tolS, TTLNs: int64(ttl), OrigDrift: s1 - ts, ReplDrift: s2 - ts}}
+	r := result{obs: Obs{Case: c, TolS: tolS, TTLNs: int64(ttl), OrigDrift: s1 - ts, ReplDrift: s2 - ts, ElapsedNs: c.DelayNs}}
 	fmtRes := func(acc bool, why string) string {
 		if acc {
 			return "accepted"
@@ -435,7 +484,7 @@ func runCase(s site, c Case) result {
 		return "rejected:" + why
 	}
 	security.VerifSetClock(t1)
-	acc, why := in.deliver(sender, "nonce-under-test", ts)
+	acc, why := in.deliver(sender, nonceUnderTest, ts)
 	r.deliveries++
 	r.obs.Orig = fmtRes(acc, why)
 	if c.Ticks {
@@ -453,7 +502,7 @@ func runCase(s site, c Case) result {
 		}
 	}
 	security.VerifSetClock(t2)
-	acc, why = in.deliver(sender, "nonce-under-test", ts)
+	acc, why = in.deliver(sender, nonceUnderTest, ts)
 	r.deliveries++
 	r.obs.Replay = fmtRes(acc, why)
 	return r
@@ -534,6 +583,102 @@ func enumerate(siteName string, tolNs, ttlNs int64, thorough bool, f func(Case))
 	return
 }
 
+// ---- histories ------------------------------------------------------------------------------------
+
+// cacheIntervals: the nonce cache's own periods, read from the compiled package (accessor generated by
+// the driver from nonce_cache.go's package-level declarations). Falls back to 60 s when none is found.
+func cacheIntervals() (named map[string]int64, secs []int64, assumed bool) {
+	named = map[string]int64{}
+	for n, d := range security.VerifC26DurationConsts() {
+		if d >= time.Second && d <= time.Hour {
+			named[n] = int64(d)
+			secs = append(secs, int64(d/time.Second))
+		}
+	}
+	if len(secs) == 0 {
+		return named, []int64{60}, true
+	}
+	return named, uniq(secs), false
+}
+
+// gapGrid: clock advances (whole seconds) around the sweep interval(s) I and the retention:
+// 0, 1, I-1, I, I+1, ttl-I-1, ttl-I, ttl-I+1, ttl-1, ttl, ttl+1.
+func gapGrid(ttlS int64, ivs []int64) []int64 {
+	v := []int64{0, 1, ttlS - 1, ttlS, ttlS + 1}
+	for _, i := range ivs {
+		v = append(v, i-1, i, i+1, ttlS-i-1, ttlS-i, ttlS-i+1)
+	}
+	var out []int64
+	for _, x := range v {
+		if x >= 0 {
+			out = append(out, x)
+		}
+	}
+	return uniq(out)
+}
+
+func histShapes(thorough bool) []string {
+	sh := []string{"MR", "MUR", "MVR", "UMR", "VMR", "MUUR", "MUVR", "MVUR", "MVVR"}
+	if thorough {
+		sh = append(sh, "UMUR", "UMVR", "VMUR", "VMVR", "UUMR", "UVMR", "VUMR", "VVMR")
+	}
+	return sh
+}
+
+// enumerateHist calls f for every history case of the site, in a fixed order. Distinct by construction.
+func enumerateHist(siteName string, tolNs, ttlNs int64, ivs []int64, thorough bool, f func(Case)) (gaps []int64) {
+	tolS := tolNs / 1e9
+	gaps = gapGrid(ttlNs/1e9, ivs)
+	first := []int64{0}
+	for _, i := range ivs {
+		first = append(first, i+1)
+		if thorough {
+			first = append(first, i)
+		}
+	}
+	first = uniq(first)
+	bound := 2*tolS + 2 // M..R longer than this: R is outside the window whatever the offset
+	offs := edgeOffsets(tolS)
+	for _, shape := range histShapes(thorough) {
+		mIdx := strings.IndexByte(shape, 'M')
+		adv := make([]int64, len(shape))
+		var rec func(i int, mToR int64)
+		rec = func(i int, mToR int64) {
+			if i == len(shape) {
+				var b strings.Builder
+				for k := range shape {
+					if k > 0 {
+						b.WriteByte(' ')
+					}
+					b.WriteString("+" + strconv.FormatInt(adv[k], 10) + " " + shape[k:k+1])
+				}
+				h := b.String()
+				for _, off := range offs {
+					f(Case{Site: siteName, OffS: off, Hist: h})
+				}
+				return
+			}
+			g := gaps
+			if i == 0 {
+				g = first
+			}
+			for _, a := range g {
+				m := mToR
+				if i > mIdx {
+					m += a
+					if m > bound {
+						continue
+					}
+				}
+				adv[i] = a
+				rec(i+1, m)
+			}
+		}
+		rec(0, 0)
+	}
+	return gaps
+}
+
 // ---- main -----------------------------------------------------------------------------------------
 
 func main() {
@@ -547,7 +692,8 @@ func main() {
 	repeat := flag.Int("repeat", 1, "")
 	flag.Parse()
 	out := &WorkerOut{Sites: map[string]SiteInfo{}, Outcomes: map[string]int{}, Exhaustive: true,
-		GridOffsets: map[string]int{}, GridDelays: map[string]int{}, AcceptedOrigin: map[string]int{}}
+		GridOffsets: map[string]int{}, GridDelays: map[string]int{}, AcceptedOrigin: map[string]int{},
+		HistByLen: map[string]int{}, HistGaps: map[string][]int64{}, UnrelatedSeen: map[string]int{}}
 	emit := func() {
 		b, _ := json.Marshal(out)
 		os.Stdout.Write(b)
@@ -581,6 +727,9 @@ func main() {
 		edgeSite(rig, "edge-sync-file"), edgeSite(rig, "edge-sync-reconcile")}
 	dbg("sites")
 	classes := map[string]*Class{}
+	nPlain, nHist := 0, 0
+	ivNamed, ivSecs, ivAssumed := cacheIntervals()
+	out.Intervals, out.IntervalsAssumed = ivNamed, ivAssumed
 	record := func(s site, r result) {
 		o := r.obs
 		out.Cases++
@@ -588,6 +737,18 @@ func main() {
 		out.FreshRejected += r.freshRej
 		origAcc, replAcc := o.Orig == "accepted", o.Replay == "accepted"
 		origIn, replIn := abs(o.OrigDrift) <= o.TolS, abs(o.ReplDrift) <= o.TolS
+		isHist := o.Case.Hist != ""
+		if isHist {
+			out.HistCases++
+			shape, _, _ := histShape(o.Case.Hist)
+			out.HistByLen[strings.NewReplacer("U", "X", "V", "X").Replace(shape)]++
+			if origAcc && replIn {
+				out.HistNonTrivial++
+			}
+			for k, v := range r.unrelated {
+				out.UnrelatedSeen[s.name+":"+k] += v
+			}
+		}
 		if origAcc {
 			out.AcceptedOrigin[s.name]++
 		}
@@ -615,8 +776,8 @@ func main() {
 			if caseLess(o.Case, c.Min.Case) {
 				c.Min = o
 			}
-			if o.Case.DelayNs > c.MaxDelay {
-				c.MaxDelay = o.Case.DelayNs
+			if o.ElapsedNs > c.MaxDelay {
+				c.MaxDelay = o.ElapsedNs
 			}
 			if o.Case.OffS < c.MinOff {
 				c.MinOff = o.Case.OffS
@@ -634,7 +795,7 @@ func main() {
 			}
 			// a replay that gets through while the cache should, by its own TTL, still remember the nonce
 			// is a different defect from one that arrives after the configured retention ran out
-			if o.Case.DelayNs < o.TTLNs {
+			if o.ElapsedNs < o.TTLNs {
 				region += ",within-ttl"
 			} else {
 				region += ",after-ttl"
@@ -653,7 +814,12 @@ func main() {
 		if replAcc && !replIn {
 			add("outside-window-accepted", "replay-"+side(o.ReplDrift))
 		}
-		if len(out.Samples) < 2 && origAcc && replIn && o.Case.DelayNs > 0 {
+		if !isHist && nPlain < 2 && origAcc && replIn && o.Case.DelayNs > 0 {
+			nPlain++
+			out.Samples = append(out.Samples, o)
+		}
+		if isHist && nHist < 1 && origAcc && replIn && o.TicksSent == 2 && o.ElapsedNs > o.TTLNs/2 {
+			nHist++
 			out.Samples = append(out.Samples, o)
 		}
 	}
@@ -682,7 +848,7 @@ func main() {
 				}
 				found = true
 				for k := 0; k < *repeat; k++ {
-					r := runCase(s, c)
+					r := runCaseRetry(s, c, &out.Retried)
 					record(s, r)
 					all = append(all, r.obs)
 				}
@@ -701,7 +867,7 @@ func main() {
 				fail("site %s: tolerance %v / ttl %v not usable", s.name, s.tol, ttl)
 			}
 			out.Sites[s.name] = SiteInfo{TolNs: int64(s.tol), TTLNs: int64(ttl)}
-			no, nd := enumerate(s.name, int64(s.tol), int64(ttl), *tier == "thorough", func(c Case) {
+			visit := func(c Case) {
 				idx++
 				if idx%*of != *shard {
 					return
@@ -714,8 +880,12 @@ func main() {
 					out.Exhaustive = false
 					return
 				}
-				record(s, runCase(s, c))
-			})
+				record(s, runCaseRetry(s, c, &out.Retried))
+			}
+			// histories first: in thorough the dense time grid is what the time cap may cut short
+			out.HistGaps[s.name] = enumerateHist(s.name, int64(s.tol), int64(ttl), ivSecs, *tier == "thorough", visit)
+			dbg("site " + s.name + " histories done, deliveries so far " + strconv.Itoa(out.Deliveries))
+			no, nd := enumerate(s.name, int64(s.tol), int64(ttl), *tier == "thorough", visit)
 			out.GridOffsets[s.name], out.GridDelays[s.name] = no, nd
 			dbg("site " + s.name + " deliveries so far " + strconv.Itoa(out.Deliveries))
 		}
